@@ -99,7 +99,7 @@ for _spec in dcspec.SPECS:
             _marks = ['accept', 'deferred']
         for _base in ('Schema', 'DataClass'):
             ob('%s/%s/%s' % (_spec, _g, _base), marks=_marks, budget=(100, 400), per_path=(15, 30),
-               thorough_only=_g not in QUICK[_spec] or (_base == 'DataClass' and _g != 'plain'),
+               thorough_only=_g not in QUICK[_spec] or (_base == 'DataClass' and _g != 'plain') or (_g == 'alias' and _spec in ('io', 'depio')),
                bounds=bounds_text(_spec, _g, _base) + '; lookup strategy (default / data-first / field-first) solver-chosen; '
                       'outcome compared with the reference model: error kinds (fail-fast and collected), key view, '
                       'attribute view, getattr incl. deferred defaults, `in` for every spelling',
